@@ -74,6 +74,7 @@ type syncScen struct {
 	Kind     string // memory | filesystem
 	Cal      int    // calendar of the snapshot dates: 0 = UTC midnights of March 2021; 1 / 2 = local midnights in America/New_York where day 1 is the 23-hour / 25-hour day of 2024; 3 = year 2300; 4 = new year 1902
 	Repeat   bool   // the explicit list names every asset twice (A B A B): two watch lists concatenated
+	Delay    int    // Sync.Delay in seconds (the default of NewSync is 5; the pause is a scheduling point, no wall-clock time passes)
 }
 
 var nyLoc = func() *time.Location {
@@ -116,6 +117,9 @@ func (s syncScen) String() string {
 	}
 	if s.Repeat {
 		cal += ", every name listed twice"
+	}
+	if s.Delay > 0 {
+		cal += fmt.Sprintf(", delay %ds", s.Delay)
 	}
 	return fmt.Sprintf("%s target, workers=%d, explicit=%v, assets=[%s]%s", s.Kind, s.Workers, s.Explicit, strings.Join(p, " "), cal)
 }
@@ -201,7 +205,7 @@ func syncScenario(s syncScen) explore.Scenario {
 			target := &faultRepo{Repository: base, fail: fail}
 			run := func() error {
 				sy := asset.NewSync()
-				sy.Workers, sy.Delay, sy.Logger = s.Workers, 0, quietLogger
+				sy.Workers, sy.Delay, sy.Logger = s.Workers, s.Delay, quietLogger
 				if s.Explicit {
 					sy.Assets = append([]string{}, names...)
 					if s.Repeat {
@@ -281,7 +285,7 @@ func syncScens(tier string) []syncScen {
 		for _, ex := range []bool{true, false} {
 			for _, a := range per {
 				for _, w := range []int{1, 2} {
-					out = append(out, syncScen{[]syncAsset{a}, w, ex, k, 0, false})
+					out = append(out, syncScen{Assets: []syncAsset{a}, Workers: w, Explicit: ex, Kind: k, Cal: 0, Repeat: false})
 				}
 			}
 			for _, a := range per {
@@ -294,7 +298,7 @@ func syncScens(tier string) []syncScen {
 						if !thorough && k == "filesystem" && !ex && w > 1 {
 							continue
 						}
-						out = append(out, syncScen{[]syncAsset{a, b}, w, ex, k, 0, false})
+						out = append(out, syncScen{Assets: []syncAsset{a, b}, Workers: w, Explicit: ex, Kind: k, Cal: 0, Repeat: false})
 					}
 				}
 			}
@@ -308,8 +312,8 @@ func syncScens(tier string) []syncScen {
 				if a.Fault {
 					continue
 				}
-				out = append(out, syncScen{[]syncAsset{a}, 1, ex, "memory", cal, false})
-				out = append(out, syncScen{[]syncAsset{a, {2, true, false}}, 1, ex, "memory", cal, false})
+				out = append(out, syncScen{Assets: []syncAsset{a}, Workers: 1, Explicit: ex, Kind: "memory", Cal: cal, Repeat: false})
+				out = append(out, syncScen{Assets: []syncAsset{a, {2, true, false}}, Workers: 1, Explicit: ex, Kind: "memory", Cal: cal, Repeat: false})
 			}
 		}
 	}
@@ -322,12 +326,19 @@ func syncScens(tier string) []syncScen {
 			out = append(out, syncScen{Assets: []syncAsset{a, {1, true, false}}, Workers: 1, Explicit: true, Kind: k, Repeat: true})
 		}
 	}
+	// the pause between two assets of a worker (Sync.Delay, 5 s by default): more assets than workers, one and two workers
+	for _, k := range kinds {
+		for _, w := range []int{1, 2} {
+			out = append(out, syncScen{Assets: []syncAsset{{0, true, false}, {1, true, false}, {2, true, false}}, Workers: w, Explicit: true, Kind: k, Delay: 5})
+			out = append(out, syncScen{Assets: []syncAsset{{1, true, false}, {0, true, false}}, Workers: 1, Explicit: w == 1, Kind: k, Delay: 1})
+		}
+	}
 	// a zero-byte asset file in a file-system target (e.g. created to register a new asset)
 	for _, ex := range []bool{true, false} {
 		for _, w := range []int{1, 2} {
-			out = append(out, syncScen{[]syncAsset{{-1, true, false}}, w, ex, "filesystem", 0, false})
-			out = append(out, syncScen{[]syncAsset{{-1, true, false}, {1, true, false}}, w, ex, "filesystem", 0, false})
-			out = append(out, syncScen{[]syncAsset{{2, true, false}, {-1, true, false}}, w, ex, "filesystem", 0, false})
+			out = append(out, syncScen{Assets: []syncAsset{{-1, true, false}}, Workers: w, Explicit: ex, Kind: "filesystem", Cal: 0, Repeat: false})
+			out = append(out, syncScen{Assets: []syncAsset{{-1, true, false}, {1, true, false}}, Workers: w, Explicit: ex, Kind: "filesystem", Cal: 0, Repeat: false})
+			out = append(out, syncScen{Assets: []syncAsset{{2, true, false}, {-1, true, false}}, Workers: w, Explicit: ex, Kind: "filesystem", Cal: 0, Repeat: false})
 		}
 	}
 	// three assets: representative situations per asset on the file-system target (and in memory in the thorough tier)
@@ -339,10 +350,10 @@ func syncScens(tier string) []syncScen {
 		for _, b := range rep {
 			for _, c := range rep {
 				// three workers on three assets have > 20000 traces: thorough tier only, under the execution cap
-				out = append(out, syncScen{[]syncAsset{a, b, c}, 2, true, "filesystem", 0, false})
+				out = append(out, syncScen{Assets: []syncAsset{a, b, c}, Workers: 2, Explicit: true, Kind: "filesystem", Cal: 0, Repeat: false})
 				if thorough {
-					out = append(out, syncScen{[]syncAsset{a, b, c}, 3, true, "filesystem", 0, false})
-					out = append(out, syncScen{[]syncAsset{a, b, c}, 2, true, "memory", 0, false})
+					out = append(out, syncScen{Assets: []syncAsset{a, b, c}, Workers: 3, Explicit: true, Kind: "filesystem", Cal: 0, Repeat: false})
+					out = append(out, syncScen{Assets: []syncAsset{a, b, c}, Workers: 2, Explicit: true, Kind: "memory", Cal: 0, Repeat: false})
 				}
 			}
 		}
@@ -475,8 +486,8 @@ func DebugSync() {
 	pprof.StartCPUProfile(f)
 	defer pprof.StopCPUProfile()
 	for _, s := range []syncScen{
-		{[]syncAsset{{0, true, false}, {1, true, false}}, 2, true, "memory", 0, false},
-		{[]syncAsset{{0, true, false}, {1, true, false}, {2, true, false}}, 3, true, "filesystem", 0, false},
+		{Assets: []syncAsset{{0, true, false}, {1, true, false}}, Workers: 2, Explicit: true, Kind: "memory", Cal: 0, Repeat: false},
+		{Assets: []syncAsset{{0, true, false}, {1, true, false}, {2, true, false}}, Workers: 3, Explicit: true, Kind: "filesystem", Cal: 0, Repeat: false},
 	} {
 		t0 := time.Now()
 		st := explore.DPOR(syncScenario(s), explore.Opts{Races: true, MaxExec: 20000})
